@@ -267,6 +267,8 @@ class Fn:
         self.helpers = {}       # nested defs, inlined
         self.aux = []           # auxiliary top-level definitions (loops)
         self.div_sites = []
+        self.pending_checks = []
+        self.unchecked_divs = []
         self.join_depth = 0
         self.let_bound = set()
         self.pending = []
@@ -817,10 +819,13 @@ class Fn:
             a, b, _ = self.unify(a, ta, b, tb)
             f = {ast.Mult: "mul", ast.Div: "div", ast.Add: "add", ast.Sub: "sub"}.get(type(op))
             if f:
+                if f == "div":
+                    self.div_check(f"(Q.isZero {par(b)})", "Q", ast.unparse(node) if node is not None else "/")
                 return (f"(Q.{f} {par(a)} {par(b)})", "Q")
             raise NotTranslatable("rational operator")
         if isinstance(op, ast.Div) and is_int_ty(ta) and is_int_ty(tb):
             # true division of two ints: an exact rational
+            self.div_check(f"({as_int(b, tb)} == 0)", tb, ast.unparse(node) if node is not None else "/")
             return (f"(Q.div (Q.ofInt {as_int(a, ta)}) (Q.ofInt {as_int(b, tb)}))", "Q")
         if ta.startswith("List:") and tb.startswith("List:") and isinstance(op, ast.Add):
             return (f"({a} ++ {b})", ta if ta != "List:_" else tb)
@@ -859,9 +864,11 @@ class Fn:
             return (f"({ai} - {bi})", "Int")
         if isinstance(op, ast.FloorDiv):
             self.div_sites.append(ast.unparse(node) if node is not None else "//")
+            self.div_check(f"({bi} == 0)", tb, ast.unparse(node) if node is not None else "//")
             return (f"(Int.fdiv {par(ai)} {par(bi)})", "Int")
         if isinstance(op, ast.Mod):
             self.div_sites.append(ast.unparse(node) if node is not None else "%")
+            self.div_check(f"({bi} == 0)", tb, ast.unparse(node) if node is not None else "%")
             return (f"(Int.fmod {par(ai)} {par(bi)})", "Int")
         raise NotTranslatable(f"operator {type(op).__name__}")
 
@@ -1165,6 +1172,7 @@ class Fn:
             l, r = self.expr(args[0], env), self.expr(args[1], env)
             self.div_sites.append(ast.unparse(node))
             ai, bi = as_int(*l), as_int(*r)
+            self.div_check(f"({bi} == 0)", r[1], ast.unparse(node))
             return (f"((Int.fdiv {par(ai)} {par(bi)}), (Int.fmod {par(ai)} {par(bi)}))", "Tuple:Int,Int")
         if fname == "set" and not args and not kw:
             return ("[]", "List:_")
@@ -1213,7 +1221,10 @@ class Fn:
                 raise NotTranslatable(f"{len(sites)} random draws where the binding table knows {len(table)}")
             return table[idx]
         if fname in self.t.get("calls", {}):
-            return self.t["calls"][fname](self, args, kw, env)
+            r_ = self.t["calls"][fname](self, args, kw, env)
+            if self.t.get("mode_divok"):
+                self.callee_checks(r_[0])
+            return r_
         if fname.endswith(".unpack") and len(args) == 1 and not kw:
             recv = fname[:-7]
             if recv in env and env[recv] is not None and env[recv][1].startswith("StructOf:"):
@@ -1366,6 +1377,8 @@ class Fn:
 
     # ---------------------------------------------------------------- statements
     def ret(self, e, t):
+        if self.t.get("mode_divok"):
+            return "true"                  # the function got to a `return`: no ZeroDivisionError on this path
         want = self.t["ret"]
         if hasattr(self, "ret_types"):
             self.ret_types.append(t)
@@ -1397,6 +1410,9 @@ class Fn:
             if s.value is None:
                 return pad + self.wrap_ret(self.ret("none", "Opt:_"))
             want = self.t["ret"]
+            if self.t.get("mode_divok"):
+                e, t = self.expr(s.value, env)          # evaluated for the divisions inside
+                return pad + self.wrap_ret("true")
             if isinstance(s.value, ast.Tuple) and want.startswith("Opt:Tuple:") and not hasattr(self, "ret_types"):
                 return pad + self.wrap_ret("(some " + self.coerce(s.value, env, want[4:]) + ")")
             e, t = self.expr(s.value, env)
@@ -1411,6 +1427,8 @@ class Fn:
             out_ = m[exc]
             if callable(out_):
                 out_ = out_(self, s.exc, env)
+            if self.t.get("mode_divok"):
+                out_ = "true"
             return pad + self.wrap_ret(out_)
         if isinstance(s, ast.FunctionDef):
             if s.decorator_list or s.args.vararg or s.args.kwarg or s.args.kwonlyargs:
@@ -1767,9 +1785,47 @@ class Fn:
             return self.truthy(e, t)
         raise NotTranslatable(f"cannot convert {t} to {want}")
 
+    def callee_checks(self, text):
+        """division-safety mode: a call of another printed function that has a division-safety companion is safe when the companion
+        says so for these arguments"""
+        for name in self.t.get("divok_callees", ()):
+            key = f"(P0f.Gen.{name} "
+            i = text.find(key)
+            while i >= 0:
+                depth, j = 0, i
+                while j < len(text):
+                    if text[j] == "(":
+                        depth += 1
+                    elif text[j] == ")":
+                        depth -= 1
+                        if depth == 0:
+                            break
+                    j += 1
+                args_ = text[i + len(key):j]
+                if self.no_raise > 0:
+                    self.unchecked_divs.append(f"call of {name}")
+                else:
+                    self.pending_checks.append(f"(!(P0f.Gen.{name}_divok {args_}))")
+                i = text.find(key, j)
+
+    def div_check(self, zero_test, tb, b_node_text):
+        """division-safety mode: the statement containing this division is only reached with a non-zero divisor; a divisor that is a
+        non-zero literal needs no check; a division inside a short-circuit / conditional expression cannot be checked at statement
+        level (listed in the header as unchecked)"""
+        if not self.t.get("mode_divok"):
+            return
+        if tb == "Lit":
+            return
+        if self.no_raise > 0:
+            self.unchecked_divs.append(b_node_text)
+            return
+        self.pending_checks.append(zero_test)
+
     def none_value(self):
         """how an exception of a called function leaves the current function: `none` for Option targets; for `Except` targets the
         error of the innermost enclosing wrapper (`with parsing_error_wrapper(n):`), else the target's default error"""
+        if self.t.get("mode_divok"):
+            return "true"                  # another exception than ZeroDivisionError left the function
         st = getattr(self, "err_stack", None)
         if st:
             return st[-1]
@@ -1849,6 +1905,9 @@ class Fn:
         names = [self.lean_name(v) for v in vs]
         tup = "(" + ", ".join(names) + ")" if names else "()"
         exits = self.has_exit([s])
+        if not exits and self.t.get("mode_divok") and any(
+                (isinstance(n, ast.BinOp) and isinstance(n.op, (ast.Div, ast.FloorDiv, ast.Mod))) or isinstance(n, ast.Call) for n in ast.walk(s)):
+            exits = True        # division-safety mode: a zero divisor inside leaves with `false`
         if not exits and self.t.get("raises") and any(isinstance(n, ast.Call) or (isinstance(n, ast.Subscript) and "IndexError" in self.t["raises"])
                                                       for n in ast.walk(s)):
             exits = True        # a call inside may raise: the join has to be able to carry an early exit
@@ -2141,6 +2200,8 @@ class Fn:
         env = dict(self.t["env"])
 
         def end(env2, ind2):
+            if self.t.get("mode_divok"):
+                return "  " * ind2 + "true"
             if self.t["ret"].startswith("Opt:") and "end" not in self.t:
                 return "  " * ind2 + "none"
             if "end" in self.t:
@@ -2170,7 +2231,15 @@ _orig_block = Fn.block
 
 def _block(self, stmts, env, cont, ind):
     mark = len(self.pending)
+    cmark = len(self.pending_checks)
     out = _block_inner(self, stmts, env, cont, ind)
+    if len(self.pending_checks) > cmark:
+        # division-safety mode: the divisions evaluated by the first statement have non-zero divisors, else the answer is `false`
+        mine_c = self.pending_checks[cmark:]
+        del self.pending_checks[cmark:]
+        pad_c = "  " * ind
+        for test in reversed(mine_c):
+            out = f"{pad_c}if {test} then {self.wrap_ret('false')} else\n{out}"
     if len(self.pending) > mark:
         # calls that may raise, made while evaluating the first statement: bound in evaluation order around the statement and
         # everything after it (an exception leaves the function: `none`)
@@ -2244,6 +2313,16 @@ def translate_target(t):
     rty = t.get("lean_ret") or {"Int": "Int", "Bool": "Bool", "QSet": "QSet"}.get(t["ret"]) or t["lean_ret"]
     out = "".join(a for a in fn.aux if a)
     out += f"def {t['lean']} {psig} : {rty} :=\n{body}\n"
+    if t.get("divok") and not t.get("mode_divok"):
+        # the division-safety companion: the same control skeleton, `true` at every exit, `false` where a divisor is zero
+        t2 = dict(t, lean=t["lean"] + "_divok", ret="Bool", lean_ret="Bool", mode_divok=True)
+        t2.pop("end", None)
+        fn2 = Fn(t2, fdef, vars(mod))
+        body2 = fn2.translate()
+        out += "\n/-- division safety of the function above: `false` iff some division it reaches has a zero divisor (ZeroDivisionError)" \
+               + (";\n    NOT covered (inside a short-circuit / conditional expression): " + "; ".join(sorted(set(fn2.unchecked_divs))) if fn2.unchecked_divs else "") + " -/\n"
+        out += "".join(a for a in fn2.aux if a)
+        out += f"def {t2['lean']} {psig} : Bool :=\n{body2}\n"
     return out, sorted(set(fn.div_sites))
 
 
